@@ -949,6 +949,9 @@ m("c16-panicking-decoder", "C16", "precompiles/common/types.go",
 m("c10-escrow-not-bracketed", "C10", "x/erc20/keeper/msg_server.go",
   "\tif expEscrow := big.NewInt(0).Sub(escrowToken, tokens); escrowTokenAfter.Cmp(expEscrow) != 0 {", "\tif expEscrow := big.NewInt(0).Sub(escrowToken, tokens); escrowTokenAfter.Cmp(expEscrow) > 0 {",
   "escrow-balance-check", "the escrow comparison only catches an escrow that paid too little")
+m("c02-getaccount-ignores-bank-balance", "C02", "x/evm/keeper/statedb.go",
+  "\t\tif balance := k.GetBalance(ctx, addr); balance.Sign() > 0 {", "\t\tif balance := new(big.Int); balance.Sign() > 0 {",
+  "nil-only-after-the-bank-balance", "GetAccount no longer looks at the bank balance of an account-less address")
 for prop in ("C16", "C07"):
     m("c%s-gas-meter-without-precharge" % prop[1:], prop, "precompiles/common/precompile.go",
       "sdk.NewGasMeter(initialGas + contract.Gas)", "sdk.NewGasMeter(contract.Gas)",
